@@ -70,6 +70,22 @@ def observe(p, want_ledger=True, scenarios=None):
             tasks[t.fullId] = {"leaf": bool(t.leaf()), "sched": bool(t.get("scheduled", sc)),
                                "start": secs(t.get("start", sc)), "end": secs(t.get("end", sc)),
                                "seq": t.get("seqno") if hasattr(t, "get") else None}
+        if sc == 0:
+            # resolved dependency targets of the tasks that carry dependencies of their own
+            # (after 'precedes' was turned into a dependency of the other task)
+            deps = {}
+            for t in p.tasks:
+                try:
+                    own = t.provided("depends", 0)
+                except Exception:
+                    own = False
+                if own:
+                    ids = set()
+                    for d in t.get("depends", 0) or []:
+                        tgt = d.get("task") if isinstance(d, dict) else getattr(d, "task", d)
+                        ids.add(getattr(tgt, "fullId", repr(tgt)))
+                    deps[t.fullId] = sorted(ids)
+            out["deps"] = deps
         led, used = {}, {}
         if want_ledger:
             for r in p.resources:
